@@ -205,3 +205,8 @@ MUTANTS = [
     ("using: clip of default removed", H, "        if subcls.default_rounds is not None:\n            subcls.default_rounds = subcls._clip_to_desired_rounds(\n                subcls.default_rounds\n            )\n", "", "refute"),
 ]
 MUTANTS += c09_frames.MUTANTS
+
+from contracts import bcrypt_sha256_nu as _bnu  # noqa: E402
+
+CONTRACTS.append(_bnu.contract("C09"))
+MUTANTS += _bnu.MUTANTS
